@@ -266,7 +266,7 @@ impl Prop for C11 {
                 let hh = w.height.unwrap_or(0);
                 if let Resp::Ok(b) = w.inst.call("eth_getBlockByNumber", json!([format!("0x{:x}", hh), false])) {
                     if let Some(hs) = b["hash"].as_str() {
-                        w.chain.push(crate::world::BlockRec { height: hh, hash: hs.to_string(), ts: 0, calls: vec![], receipts: vec![] });
+                        w.chain.push(crate::world::BlockRec { height: hh, hash: hs.to_string(), ts: 0, calls: vec![], receipts: vec![], txs: vec![] });
                     }
                 }
             }
